@@ -109,6 +109,28 @@ func (s *Sym) Equal(t *Sym) (eq, known bool) {
 	if (aok && a == "") || (bok && b == "") {
 		return false, true // a token is never the empty string
 	}
+	// a constant can only equal a symbolic string whose literal ends it starts and ends with, and
+	// every token stands for at least one byte
+	if aok != bok {
+		c, sym := a, t
+		if bok {
+			c, sym = b, s
+		}
+		if n := len(sym.Parts); n > 0 {
+			min := 0
+			for _, p := range sym.Parts {
+				if p.Tok != "" {
+					min++
+				} else {
+					min += len(p.Lit)
+				}
+			}
+			first, last := sym.Parts[0], sym.Parts[n-1]
+			if len(c) < min || (first.Tok == "" && !strings.HasPrefix(c, first.Lit)) || (last.Tok == "" && !strings.HasSuffix(c, last.Lit)) {
+				return false, true
+			}
+		}
+	}
 	// distinct tokens are distinct atoms: coincidences between input names are
 	// modelled by separate environments, not by aliasing of tokens
 	if ta, ok := s.SingleTok(); ok {
